@@ -86,7 +86,8 @@ static size_t canon_one(var t_, char* buf, size_t cap) {
   struct Table* t = t_;
   size_t o = 0;
   if (!t) return snprintf(buf, cap, "-");
-  o += snprintf(buf + o, cap - o, "n%zu:", t->nslots);
+  /* the scratch buffers are part of the concrete state: a table that lost them behaves differently on the next set */
+  o += snprintf(buf + o, cap - o, "n%zu%s%s:", t->nslots, t->sspace0 ? "" : "!s0", t->sspace1 ? "" : "!s1");
   for (size_t i = 0; i < t->nslots && o + 48 < cap; i++) {
     uint64_t h = Table_Key_Hash(t, i);
     if (h == 0) { o += snprintf(buf + o, cap - o, "."); continue; }
